@@ -695,12 +695,21 @@ class Program:
         if k == 'genfault':
             # the next read of the top registry's generation fails - during a registration below it, or during a lookup
             v = self.newval()
-            self.gen_fault = True
-            if rng.random() < 0.6 and ri > 0:
-                self.emit(d, lambda: reg.register(req, prov if isinstance(prov, InterfaceClass) else self.iface(), '', v))
+            if rng.random() < 0.7:
+                reg = self.regs[1]           # directly below the top registry
+                req1, prov1 = (self.iface(),), self.iface()
+                self.emit('r1.lookup(%s,%s) [before a failing registration]' % (R(req1), R(prov1)), lambda: reg.lookup(req1, prov1, ''))
+                self.gen_fault = True
+                self.emit('r1.register(%s,%s) [generation read fails]' % (R(req1), R(prov1)), lambda: reg.register(req1, prov1, '', v))
+                self.gen_fault = False
+                self.emit('r1.registered', lambda: reg.registered(req1, prov1, ''))
+                self.emit('r1.lookup [after]', lambda: reg.lookup(req1, prov1, ''))
+                self.emit('r1.lookupAll [after]', lambda: sorted(map(R, reg.lookupAll(req1, prov1))))
             else:
-                self.emit(d + '[lookup]', lambda: reg.lookup(req, prov, ''))
-            self.gen_fault = False
+                self.gen_fault = True
+                self.emit(d + '[lookup, generation read fails]', lambda: reg.lookup(req, prov, ''))
+                self.gen_fault = False
+                self.emit(d + '[lookup again]', lambda: reg.lookup(req, prov, ''))
         elif k == 'register':
             v = self.newval()
             self.emit(d, lambda: reg.register(req, prov, name, v))
